@@ -14,7 +14,7 @@ def sh(cmd):
     p = subprocess.run(cmd, shell=True, cwd=wt, env=env, capture_output=True, text=True)
     return p.returncode, (p.stdout + p.stderr)[-1500:]
 try:
-    place = meta.get("demo_place", "").replace("/tmp/seed/%s/wt/" % meta["property"], "").strip("/")
+    place = (meta.get("demo_place", "").split() or [""])[0].replace("/tmp/seed/%s/wt/" % meta["property"], "").strip("/")
     place = re.sub(r"^.*?/wt/?", "", place) if "/wt" in place else place
     demos = [f for f in os.listdir(src) if f.endswith("_test.go") or f.endswith(".sh")]
     for f in demos:
